@@ -4,6 +4,8 @@ import (
 	"encoding/json"
 	"errors"
 	"time"
+
+	"github.com/AsaiYusuke/jsonpath"
 )
 
 // Non-JSON Go values (G-NONJSON, C20). Each tag always builds the same kind of value.
@@ -49,7 +51,72 @@ var OpaqueTags = []string{
 	"float32", "complex128", "func()", "chan int", "[]byte", "error", "time.Duration",
 	"map[interface{}]interface{}", "[]map[string]interface{}", "*interface{}", "nil*interface{}", "nilmap", "nilslice",
 	"namedFloat", "namedString", "namedBool", "json.RawMessage",
+	"Accessor{}", "map[string]float64", "raw-number", "raw-array", "*[]interface{}", "*map",
 }
+
+// WrapTags are opaque values that hold a document of their own: a pointer to it, an Accessor
+// whose Get returns it, its JSON text as a json.RawMessage. To the library they are leaves like
+// any other non-JSON value; what is behind them is none of its business.
+var WrapTags = []string{"wrap:*interface{}", "wrap:*container", "wrap:Accessor", "wrap:RawMessage"}
+
+// Wrap wraps inner.
+func Wrap(tag string, inner *DNode) *DNode {
+	return &DNode{K: DOpaque, Tag: tag, Kids: []*DNode{inner}}
+}
+
+// WrapValue builds the Go value of a wrapper node around the built inner value.
+func WrapValue(tag string, inner interface{}) interface{} {
+	switch tag {
+	case "wrap:*interface{}":
+		return &inner
+	case "wrap:*container":
+		switch t := inner.(type) {
+		case map[string]interface{}:
+			return &t
+		case []interface{}:
+			return &t
+		}
+		return &inner
+	case "wrap:Accessor":
+		return jsonpath.Accessor{Get: func() interface{} { return inner }, Set: func(interface{}) {}}
+	case "wrap:RawMessage":
+		b, err := json.Marshal(rawable(inner))
+		if err != nil {
+			b = []byte("null")
+		}
+		return json.RawMessage(b)
+	}
+	panic("harness bug: unknown wrapper tag " + tag)
+}
+
+// rawable replaces values json.Marshal cannot render by null.
+func rawable(v interface{}) interface{} {
+	switch t := v.(type) {
+	case map[string]interface{}:
+		m := map[string]interface{}{}
+		for k, c := range t {
+			m[k] = rawable(c)
+		}
+		return m
+	case []interface{}:
+		a := make([]interface{}, len(t))
+		for i, c := range t {
+			a[i] = rawable(c)
+		}
+		return a
+	case nil, bool, float64, string, json.Number:
+		return v
+	}
+	return nil
+}
+
+var (
+	opMapFloat = map[string]float64{"a": 1, "b": 2}
+	opRawNum   = json.RawMessage(`1`)
+	opRawArr   = json.RawMessage(`[1,{"a":1}]`)
+	opSliceVal = []interface{}{1.0, map[string]interface{}{"a": 1.0}}
+	opMapVal   = map[string]interface{}{"a": 1.0, "b": map[string]interface{}{"a": 2.0}}
+)
 
 // OpaqueValue builds the Go value for a tag.
 func OpaqueValue(tag string) interface{} {
@@ -116,6 +183,21 @@ func OpaqueValue(tag string) interface{} {
 		return namedBool(true)
 	case "json.RawMessage":
 		return opRaw
+	case "Accessor{}":
+		return jsonpath.Accessor{}
+	case "map[string]float64":
+		return opMapFloat
+	case "raw-number":
+		return opRawNum
+	case "raw-array":
+		return opRawArr
+	case "*[]interface{}":
+		return &opSliceVal
+	case "*map":
+		return &opMapVal
+	}
+	if len(tag) > 5 && tag[:5] == "wrap:" {
+		return WrapValue(tag, nil) // a wrapper whose content was trimmed away
 	}
 	panic("harness bug: unknown opaque tag " + tag)
 }
